@@ -113,7 +113,8 @@ CLAIMED = {
              "of the phase-3/phase-4 rules and every handler script: if the transaction ends interrupted in a response phase, "
              "no byte of the handler's body reached the client's writer (C18_response_block, by an invariant over all scripts); "
              "a deny in a request phase yields its status without the handler; the handler reads exactly the client's body; "
-             "unbuffered responses pass through byte-exact. Tied to /repo by `http` (real WrapHandler behind httptest).",
+             "unbuffered responses pass through byte-exact, and so do buffered ones that stay below the limit — released by the response "
+             "processor, nothing before (C18_passthrough_buffered, every handler script). Tied to /repo by `http` (real WrapHandler behind httptest).",
         note=_TB + "Partial: net/http itself (Content-Length enforcement, HTTP/2, hijacking) is outside the model.",
         ref="6/C18", engine="http"),
     "C06": dict(
